@@ -6,7 +6,7 @@ Leg R: SeedGen.tla computes, at full size (128+4 bits, 11-bit words), the specif
        of calls (checksum nibbles supplied by hashlib here); the edges are replayed on the real codec.
 Leg T: the Go driver records every call of the real functions on structured + random inputs;
        TLC validates every line against SeedTrace.tla; raw phrases are re-tokenised here."""
-import os, json, random, time, hashlib, concurrent.futures as cf
+import os, json, random, time, hashlib, threading, concurrent.futures as cf
 import vlib
 from vlib import log
 
@@ -188,12 +188,30 @@ def diagnose(wd, path, groups, bad, upto, tag):
     return r.violated, r, p
 
 
-def validate_file(wd, path, tag, verdict, codec="real", max_rej=12):
+class Stop:
+    """Shared between the shard validators: once `limit` groups have been rejected in total the
+    remaining shards are not (re-)validated -- a broken codec is reported quickly."""
+    def __init__(self, limit=6):
+        self.limit = limit; self.n = 0; self.lock = threading.Lock()
+
+    def hit(self):
+        with self.lock:
+            self.n += 1
+
+    def reached(self):
+        return self.n >= self.limit
+
+
+def validate_file(wd, path, tag, verdict, codec="real", max_rej=3, stop=None):
     """TLC-validates one NDJSON shard; on rejection names the clause, reports the group, drops it
-    and continues with the rest."""
+    and continues with the rest (at most max_rej rejections per shard; nothing more once `stop`
+    says enough groups were rejected overall).  The shard file is REWRITTEN by this loop."""
     events = vlib.count_lines(path)
     rejected = 0; states = 0; clauses = []
     for it in range(max_rej):
+        if stop is not None and stop.reached():
+            log("  T: %s: not (re-)validated, %d groups were already rejected" % (tag, stop.n))
+            break
         ok, r, consumed = vlib.validate_trace(wd, "SeedTrace", "SeedTrace.cfg", path, timeout=1500, tag="%s_%d" % (tag, it))
         states += r.distinct
         if ok:
@@ -218,6 +236,8 @@ def validate_file(wd, path, tag, verdict, codec="real", max_rej=12):
             raise vlib.Infra("the HARNESS broke its side of the contract (%s) at event %d of %s: %s" %
                              (clause, consumed, path, json.dumps(ev)[:600]))
         rejected += 1; clauses.append(clause)
+        if stop is not None:
+            stop.hit()
         short = {k: v for k, v in ev.items() if k not in ("e", "eb", "d")}
         verdict.add({"sig": "trace:%s:%s:%s" % (ev.get("op"), clause, hdr.get("kind")),
                      "desc": "TLC rejects recorded call %d of group %s (%s): clause %s of Seed.tla is violated by %s" %
@@ -241,7 +261,7 @@ TIERS = {
 }
 
 
-def leg_t(wd, tier, binary, verdict, env=None, codec="real", workers=8, max_rej=12):
+def leg_t(wd, tier, binary, verdict, env=None, codec="real", workers=8, max_rej=3):
     e = dict(TIERS[tier])
     e.update(env or {})
     e["VERIF_CODEC"] = codec
@@ -259,14 +279,23 @@ def leg_t(wd, tier, binary, verdict, env=None, codec="real", workers=8, max_rej=
     t0 = time.time()
     tot_ev = tot_rej = tot_states = tot_tok = 0
     clauses = []
+    stop = Stop(max(2 * max_rej, 6))
     with cf.ThreadPoolExecutor(max_workers=workers) as ex:
-        futs = [ex.submit(validate_file, wd, os.path.join(wd, f), f.replace(".ndjson", ""), verdict, codec, max_rej) for f in files]
-        toks = [ex.submit(retokenise, os.path.join(wd, f), windex) for f in files] if codec == "real" else []
+        # 1. independent re-tokenisation on the pristine recordings (validate_file rewrites them)
+        if codec == "real":
+            for fu in [ex.submit(retokenise, os.path.join(wd, f), windex) for f in files]:
+                tot_tok += fu.result()
+        # 2. TLC validation; a failure of one shard must not lose what the others found
+        futs = [ex.submit(validate_file, wd, os.path.join(wd, f), f.replace(".ndjson", ""), verdict, codec, max_rej, stop) for f in files]
+        err = None
         for fu in futs:
-            ev, rej, st, cl = fu.result()
-            tot_ev += ev; tot_rej += rej; tot_states += st; clauses += cl
-        for fu in toks:
-            tot_tok += fu.result()
+            try:
+                ev, rej, st, cl = fu.result()
+                tot_ev += ev; tot_rej += rej; tot_states += st; clauses += cl
+            except Exception as ex2:
+                err = err or ex2
+        if err is not None:
+            raise err
     log("  T: %d groups / %d recorded calls of the real code (%s); TLC validated in %.1fs, %d groups rejected; %d raw phrases re-tokenised" %
         (res["traces"], tot_ev, json.dumps({k: v for k, v in res["counts"].items() if not k.startswith("group.")}, sort_keys=True),
          time.time() - t0, tot_rej, tot_tok))
@@ -280,9 +309,20 @@ def leg_t(wd, tier, binary, verdict, env=None, codec="real", workers=8, max_rej=
 
 
 def run(tier):
+    verdict = vlib.Verdict(PROP)
+    try:
+        return run_legs(tier, verdict)
+    except Exception as ex:
+        if not verdict.violations:
+            raise
+        # mismatches between spec and real code were already collected: report them (exit 1)
+        log("  trouble after mismatches had been collected (%s: %s); reporting the mismatches" % (type(ex).__name__, str(ex)[:600]))
+        return verdict.finish()
+
+
+def run_legs(tier, verdict):
     t0 = time.time()
     wd = vlib.workdir(PROP)
-    verdict = vlib.Verdict(PROP)
     binary = vlib.go_build("seedx", wd)
     ms = leg_m(wd, tier)
     rr = leg_r(wd, tier, binary, verdict)
